@@ -219,6 +219,26 @@ inline std::vector<Pt> trapezoid(Ctx& c) {
     return v;
 }
 
+// the eight triangular compact-trapezoid shapes (OASIS CTRAPEZOID types 16-23): isosceles right
+// triangles on a square (16-19) and on a 2:1 box lying (20, 21) or standing (22, 23)
+inline std::vector<Pt> ctrap_triangle(Ctx& c) {
+    Pt o = point(c);
+    o.x = canon::rgrid(o.x) * 10;
+    o.y = canon::rgrid(o.y) * 10;
+    dg_t d = ongrid(c, 1, 90);
+    auto P = [&](dg_t x, dg_t y) { return Pt{o.x + x, o.y + y}; };
+    switch (c.r.below(8)) {
+        case 0: return {P(0, 0), P(0, d), P(d, 0)};
+        case 1: return {P(0, 0), P(0, d), P(d, d)};
+        case 2: return {P(0, 0), P(d, d), P(d, 0)};
+        case 3: return {P(0, d), P(d, d), P(d, 0)};
+        case 4: return {P(0, 0), P(d, d), P(2 * d, 0)};
+        case 5: return {P(0, d), P(2 * d, d), P(d, 0)};
+        case 6: return {P(0, 0), P(0, 2 * d), P(d, d)};
+        default: return {P(0, d), P(d, 2 * d), P(d, 0)};
+    }
+}
+
 inline model::MProp gds_prop(Rng& r, uint64_t attr, bool long_ok) {
     model::MProp p;
     p.name = "S_GDS_PROPERTY";
@@ -361,7 +381,7 @@ inline model::MPoly polygon(Ctx& c, bool allow_big) {
             p.pts = rect_pts(point(c), w, h);
         } break;
         case 2:
-        case 3: p.pts = trapezoid(c); break;
+        case 3: p.pts = r.chance(0.2) ? ctrap_triangle(c) : trapezoid(c); break;
         case 4: p.pts = staircase(c, (int)r.range(1, std::max(1, c.cfg.max_vertices / 2 - 1))); break;
         case 5: {  // circle candidate
             int n = (int)r.range(12, std::max(12, std::min(96, c.cfg.max_vertices * 2)));
@@ -557,6 +577,33 @@ inline model::MRef reference(Ctx& c, const std::string& target, bool by_name) {
             }
         }
     }
+    if (c.span >= 1000000000 && (m.rep.type == model::REP_RECT || m.rep.type == model::REP_REGULAR) && r.chance(0.6)) {
+        // an array wider than 2^31 grid steps whose stored coordinates (origin, far corners, every instance)
+        // are all 32-bit values: differences of legal coordinates need not fit in 32 bits
+        const dg_t LIM = 2147480000;
+        bool rect = m.rep.type == model::REP_RECT;
+        Pt v1 = rect ? Pt{m.rep.sp.x, 0} : m.rep.v1;
+        Pt v2 = rect ? Pt{0, m.rep.sp.y} : m.rep.v2;
+        bool along_x = v1.y == 0 && v2.x == 0 && v1.x != 0, along_y = v1.x == 0 && v2.y == 0 && v1.y != 0;
+        if ((along_x || along_y) && m.rep.cols >= 2) {
+            dg_t total = r.range(2200000000LL, 3600000000LL);
+            dg_t pitch = total / (dg_t)m.rep.cols;
+            dg_t sign = (along_x ? v1.x : v1.y) > 0 ? 1 : -1;
+            dg_t room = 2 * LIM - pitch * (dg_t)m.rep.cols;
+            dg_t o = sign > 0 ? -LIM + r.range(0, room) : LIM - r.range(0, room);
+            if (along_x) {
+                v1.x = sign * pitch * 10;
+                m.origin.x = o * 10;
+            } else {
+                v1.y = sign * pitch * 10;
+                m.origin.y = o * 10;
+            }
+            if (rect)
+                m.rep.sp.x = v1.x;
+            else
+                m.rep.v1 = v1;
+        }
+    }
     m.props = props(c, true);
     return m;
 }
@@ -567,6 +614,7 @@ inline model::MLib library(Rng& r, const Cfg& cfg) {
     if (cfg.force_ongrid) c.offgrid = false;
     if (r.chance(0.15)) c.span = 200000;
     if (r.chance(0.05)) c.span = 50000000;
+    if (cfg.mode == canon::GDS && r.chance(0.04)) c.span = 1000000000;  // near the 32-bit limit of the format
     if (cfg.mode == canon::OAS && r.chance(0.04)) c.span = (dg_t)1 << 38;  // OASIS integers are not limited to 32 bits
     m.name = r.chance(0.5) ? "LIB" : ident(r, 1, 14);
     static const double units[] = {1e-6, 1e-6, 1e-6, 1e-3, 1e-9, 2e-6, 1.0, 2.54e-5};
